@@ -2,7 +2,7 @@
 From Coq Require Import List Bool Arith Ascii String NArith.
 From UV.Base Require Import Order Res.
 From UV.Py Require Import PyStr.
-From UV.Schemes Require Import Common Generic LegacyOpenssl Gentoo GentooProofs Debian DebianProofs Semver Rpm Gem GemProofs Arch Openssl Pypi Maven.
+From UV.Schemes Require Import Common Generic LegacyOpenssl Gentoo GentooProofs Debian DebianProofs Semver Rpm Gem GemProofs Arch Openssl Pypi Maven Nuget Conan.
 From UV.Ref Require Pep440.
 Import ListNotations.
 
@@ -72,13 +72,21 @@ Definition sch_maven : vsch :=
   {| vT := mavenv; v_valid := fun n => Ok (maven_valid n); v_ctor := maven_ctor; v_str := maven_str;
      v_ops := fun a b => Ok (maven_ops a b); v_hasheq := maven_hasheq; v_cmp := maven_cmp; v_shape := fun _ => true |}.
 
+Definition sch_nuget : vsch :=
+  {| vT := nugetv; v_valid := nuget_valid; v_ctor := nuget_ctor; v_str := nuget_str;
+     v_ops := fun a b => Ok (nuget_ops a b); v_hasheq := nuget_hasheq; v_cmp := nuget_cmp; v_shape := fun _ => true |}.
+Definition sch_conan : vsch :=
+  {| vT := cver; v_valid := fun n => Ok (conan_valid n); v_ctor := conan_ctor; v_str := conan_str;
+     v_ops := fun a b => Ok (conan_ops a b); v_hasheq := conan_hasheq; v_cmp := conan_cmp; v_shape := fun _ => true |}.
+
 Definition schemes : list (string * vsch) :=
   [("GenericVersion", sch_generic); ("Version", sch_generic); ("LegacyOpensslVersion", sch_legacy);
    ("SemverVersion", sch_semver); ("NginxVersion", sch_semver); ("GolangVersion", sch_golang); ("ComposerVersion", sch_golang);
    ("GentooVersion", sch_gentoo); ("DebianVersion", sch_deb); ("AlpineLinuxVersion", sch_alpine);
    ("RpmVersion", sch_rpm); ("RubygemsVersion", sch_gem);
    ("ArchLinuxVersion", sch_arch); ("OpensslVersion", sch_openssl);
-   ("PypiVersion", sch_pypi); ("MavenVersion", sch_maven)]%string.
+   ("PypiVersion", sch_pypi); ("MavenVersion", sch_maven);
+   ("NugetVersion", sch_nuget); ("ConanVersion", sch_conan)]%string.
 
 Definition find_scheme (name : string) : option vsch :=
   match find (fun p => String.eqb (fst p) name) schemes with Some p => Some (snd p) | None => None end.
